@@ -5,10 +5,12 @@ import P2sh.Driver.HMapDrv
 import P2sh.Driver.LangDrv
 import P2sh.Driver.BuiltinDrv
 import P2sh.Driver.ScanDrv
+import P2sh.Driver.VmDrv
 open P2sh.Driver
 
 def dispatch (line : String) : String :=
   if line.startsWith "eval " then LangDrv.runEval line else
+  if line.startsWith "vmrun " then VmDrv.run line else
   match words line with
   | [] => "bad-op"
   | op :: args =>
